@@ -337,7 +337,7 @@ class ConvexPolygon(GeoBody):
             (
                 "ConvexPolygon",
                 round(self._get_point_hash_sum(), get_sig_figures() - 5),
-                hash(self.plane),
+                self.plane.hash_with_normal(),
             )
         )
 
